@@ -505,10 +505,10 @@ COQ_HEAD = ('From Coq Require Import ZArith List.\nImport ListNotations.\nFrom P
 
 def cases_v(items):
     """items: list of (np, ops_term).  One Eval per case printing
-    (trace_cur, trace_fixed, head_ok over the history)"""
+    (trace_head, trace_fixed, head_ok over the history)"""
     out = [COQ_HEAD]
     for np_, ops in items:
-        out.append('Eval vm_compute in (let ops := %s in (trace_cur %d 0 ops, trace_fixed %d 0 ops, '
+        out.append('Eval vm_compute in (let ops := %s in (trace_head %d 0 ops, trace_fixed %d 0 ops, '
                    'hist_allb commit_loop head_ok (init %d 0) ops, hist_allb commit_fixed head_ok (init %d 0) ops)).'
                    % (ops, np_, np_, np_, np_))
     return '\n'.join(out) + '\n'
